@@ -283,6 +283,7 @@ func Templates() []Template {
 		T("brlen-setmin", "tree.nw", "brlen", "setmin", "-l", "0.05"),
 		T("brlen-setrand", "tree.nw", "brlen", "setrand").seeded(),
 		T("collapse-clade", "tree.nw", "collapse", "clade", "-l", "clade.txt", "-n", "COLLAPSED"),
+		T("bare-collapse-clade", "tree.nw", "collapse", "clade", "-l", "clade.txt"),
 		T("collapse-depth", "tree.nw", "collapse", "depth", "-m", "2", "-M", "3"),
 		T("collapse-length", "tree.nw", "collapse", "length", "-l", "0.05"),
 		T("collapse-name", "rooted.nw", "collapse", "name", "-b", "innername.txt"),
